@@ -200,6 +200,8 @@ pub struct CaseOut {
     pub key: u64,
     /// a cachelito operation panicked and this check is not C16: rest of the case skipped
     pub aborted_foreign: bool,
+    /// auxiliary data for custom stages (e.g. the scheduler's choice log)
+    pub aux: String,
 }
 
 /// Run one case in a forked child: the child starts from the pristine process image (no
@@ -421,6 +423,7 @@ pub fn caseout_to_json(o: &CaseOut) -> Value {
         "classes": o.classes,
         "key": o.key,
         "aborted_foreign": o.aborted_foreign,
+        "aux": o.aux,
         "violation": o.violation.as_ref().map(|v| json!({
             "signature": v.signature, "clause": v.clause, "step": v.step, "expected": v.expected, "observed": v.observed
         })),
@@ -437,6 +440,7 @@ pub fn caseout_from_json(v: &Value) -> CaseOut {
         classes: v["classes"].as_array().map(|a| a.iter().filter_map(|x| x.as_str()).map(|s| leak(s.to_string())).collect()).unwrap_or_default(),
         key: v["key"].as_u64().unwrap_or(0),
         aborted_foreign: v["aborted_foreign"].as_bool().unwrap_or(false),
+        aux: v["aux"].as_str().unwrap_or("").to_string(),
         violation: if v["violation"].is_null() {
             None
         } else {
@@ -460,7 +464,8 @@ pub fn run_worker(prop: &Property, tier: Tier, seed: u64, index: usize, workers:
             Tier::Quick => part.cases_quick,
             Tier::Thorough => part.cases_thorough,
         };
-        let n = share(total, workers, index);
+        let mult: f64 = std::env::var("VERIF_CASES_MULT").ok().and_then(|s| s.parse().ok()).unwrap_or(1.0);
+        let n = share((total as f64 * mult) as u64, workers, index);
         if n == 0 {
             continue;
         }
